@@ -44,9 +44,11 @@ class CallGraph:
                     f = c.get("f")
                     if r:
                         out.add(r)
-                    elif f:
+                    if f and (not r or r == f):
+                        # unresolved trait method, or a virtual call through `dyn Trait` (the driver then reports the
+                        # trait item itself as the resolution): every workspace impl may run
                         out.add(f)
-                        for im in ti.get(f, ()):  # unresolved trait method: every workspace impl
+                        for im in ti.get(f, ()):
                             out.add(im)
                     _walk_consts(c, out)
                 elif t[0] == "tail" and t[1]:
